@@ -249,6 +249,89 @@ def access(case, res):
     creds_case(case, res, body)
 
 
+@scenario("manysessions")
+def manysessions(case, res):
+    """many connections logged in as the SAME account at once (17 .. 40), then some more; some of them were another account
+    before. Whether the daemon accepts yet another session of an account is its own business - but a peer holds exactly the rights
+    of the last authenticate that was ANSWERED WITH SUCCESS ("a failed authentication changes nothing", "a peer that has not
+    successfully authenticated holds no groups"): visibility, get, set and call of every session follow the answers it got"""
+    prm = case.get("params", {})
+
+    def body(S, rng, creds, pool):
+        usable = sorted(n for n, u in creds.users.items() if u.get("hash") is None)
+        rich = [n for n in usable if creds.filt(creds.users[n].get("fetchGroups"))]
+        if not rich or not pool:
+            S.stats["manysessions_without_groups"] += 1
+            rich = usable
+        U = rng.choice(rich)
+        others = [n for n in usable if n != U]
+        own = S.connect("own", "uds")
+        ug = creds.users[U]
+        acc_secret = {"fetchGroups": list(ug.get("fetchGroups", []))[:2] or ["nogroup"], "setGroups": list(ug.get("setGroups", []))[:2] or ["nogroup"]}
+        S.request(own, "add", {"path": "m/secret", "value": 0, "access": acc_secret})
+        S.request(own, "add", {"path": "m/method", "access": {"fetchGroups": acc_secret["fetchGroups"], "callGroups": list(ug.get("callGroups", []))[:2] or ["nogroup"]}})
+        S.request(own, "add", {"path": "m/public", "value": 0})
+        S.settle()
+        k = rng.choice([15, 16, 17, 18, 20, 33, 40])
+        sess = []
+        for i in range(k):
+            t = rng.choice(["raw", "raw", "uds", "ws"])
+            c = S.connect("s%d" % i, t)
+            if t == "ws":
+                S.handshake(c)
+            if others and rng.random() < 0.3:
+                # was somebody else before
+                v = rng.choice(others)
+                S.request(c, "authenticate", {"user": v, "password": creds.users[v]["password"]}).may_refuse = True
+            p = S.request(c, "authenticate", {"user": U, "password": creds.users[U]["password"]}, chunks=pick_chunks(rng))
+            p.may_refuse = True
+            sess.append(c)
+            if rng.random() < 0.3:
+                S.settle()
+        S.settle()
+        S.sig("manysessions", min(k, 18), sum(1 for c in sess if c.user == U) >= 17)
+        S.stats["sessions_of_one_account"] += sum(1 for c in sess if c.user == U)
+        S.stats["sessions_refused"] += sum(1 for c in sess if c.user != U)
+        for c in sess:
+            S.request(c, "fetch", {"id": 1, "path": {"startsWith": "m/"}})
+        S.settle()
+        for rnd in range(3):
+            S.request(own, "change", {"path": "m/secret", "value": rnd + 1})
+            for c in rng.sample(sess, min(len(sess), 8)):
+                r = rng.random()
+                if r < 0.4:
+                    S.request(c, "get", {})
+                elif r < 0.7:
+                    S.request(c, "set", {"path": "m/secret", "value": S.next_val(c)})
+                else:
+                    S.request(c, "call", {"path": "m/method", "args": [S.next_val(c)]})
+            S.settle()
+            for c in sess:
+                for p in list(c.pending.values()):
+                    if p.state == "forwarded" and p.reply is None:
+                        S.reply(own, p, "result")
+            S.settle()
+        # sessions end, new ones take their place
+        for c in rng.sample(sess, min(len(sess), 6)):
+            S.end(c, rng.choice(["eof", "rst"]))
+        S.settle()
+        for i in range(6):
+            c = S.connect("n%d" % i, rng.choice(["raw", "ws"]))
+            if c.transport == "ws":
+                S.handshake(c)
+            S.request(c, "authenticate", {"user": U, "password": creds.users[U]["password"]}).may_refuse = True
+            S.settle()
+            S.request(c, "fetch", {"id": 1})
+        S.request(own, "change", {"path": "m/secret", "value": "last"})
+        S.settle()
+        leak_scan(S)
+        st = S.close_all()
+        S.check_idle_baseline(st)
+        S.shutdown()
+        return S.ops[:20]
+    creds_case(case, res, body)
+
+
 @scenario("localadd")
 def localadd(case, res):
     def body(S, rng):
